@@ -84,15 +84,13 @@ func newGameModel(c *Ctx, rule string) *gameModel {
 			}
 		}
 	}
-	if g.updNP == nil {
-		c.R.Undecided(rule, "anchor:clock update in PushMove", c.pos(g.push.Pos()), "", "no call initialises node.noprogress in PushMove")
-		return nil
-	}
 	if g.identCount == nil {
 		c.R.Undecided(rule, "anchor:exact repetition count in PushMove", c.pos(g.push.Pos()), "", "no exact re-count call found in PushMove")
 		return nil
 	}
-	c.R.Analysed(c.P.FuncName(g.updNP))
+	if g.updNP != nil {
+		c.R.Analysed(c.P.FuncName(g.updNP))
+	}
 	c.R.Analysed(c.P.FuncName(g.identCount))
 	g.in.Hook = g.hook
 	return g
